@@ -25,7 +25,7 @@ def run(tier, seed, replay=None):
                                     "-rsa-every", "300" if tier == "quick" else "100", "-sweep-every", "60" if tier == "quick" else "30"], timeout=7000)
     if rep.get("extra", {}).get("read_error"):
         raise vlib.Infra(rep["extra"]["read_error"])
-    if rep["inconclusive"]:
+    if rep["inconclusive"] and not rep["divergences"]:
         raise vlib.Infra("harness could not construct %d cases: %s" % (rep["inconclusive"], rep["extra"].get("infra_example")))
     ck.add_report(rep)
     ck.cov["rule"] = ("one case per stage-2 TLC state: ad shape (previous link, entries link, addresses, removal flag, extended providers with "
